@@ -258,6 +258,21 @@ def ev(n, env, funcs=None):
             return list(range(*args))
         if fname == 'enumerate' and isinstance(f, ast.Name) and len(args) == 1 and isinstance(args[0], (list, tuple)):
             return list(enumerate(args[0]))
+        if isinstance(f, ast.Name) and fname == 'getattr' and len(args) in (2, 3) and isinstance(args[1], str):
+            o_ = args[0]
+            if isinstance(o_, Obj):
+                if args[1] in o_.fields:
+                    return o_.fields[args[1]]
+                if len(args) == 3:
+                    return args[2]
+                raise Unsupported('record has no field %s' % args[1])
+            if isinstance(o_, PyStub):
+                if hasattr(o_, args[1]):
+                    return getattr(o_, args[1])
+                if len(args) == 3:
+                    return args[2]
+                raise AttributeError(args[1])
+            raise Unsupported('getattr on %r' % (o_,))
         if isinstance(f, ast.Name) and fname == 'type' and len(args) == 1:
             return type(args[0])
         if isinstance(f, ast.Name) and fname == 'str' and len(args) == 1 and isinstance(args[0], (type, str, int, float)):
